@@ -5,6 +5,7 @@ package main
 // (services.New*Server) over in-memory client shims instead of gRPC.
 
 import (
+	"os"
 	"context"
 	"fmt"
 	"io"
@@ -28,6 +29,9 @@ import (
 )
 
 func quietLogs() {
+	if os.Getenv("VERIF_LOG") != "" {
+		return
+	}
 	log.SetOutput(io.Discard)
 	log.SetLevel(log.PanicLevel)
 	etcdRaft.SetLogger(&etcdRaft.DefaultLogger{Logger: stdlog.New(io.Discard, "", 0)})
@@ -231,7 +235,23 @@ func (c *memRaftClient) Receive(ctx context.Context, in *pb.RaftMessage, opts ..
 	if err := c.to.check("raft"); err != nil {
 		return nil, err
 	}
-	return c.to.transport.VerifReceive(ctx, in)
+	// like a gRPC call, the client side returns when its context ends (Send gives every message 500 ms) even if the
+	// handler is still blocked (a forwarded proposal waits in raft.Step until the receiver knows a leader)
+	type res struct {
+		m   *pb.EmptyMessage
+		err error
+	}
+	ch := make(chan res, 1)
+	go func() {
+		m, err := c.to.transport.VerifReceive(ctx, in)
+		ch <- res{m, err}
+	}()
+	select {
+	case x := <-ch:
+		return x.m, x.err
+	case <-ctx.Done():
+		return nil, ctx.Err()
+	}
 }
 
 // ---------------------------------------------------------------- DataManager shim over the real service object
